@@ -30,6 +30,7 @@ import (
 	"math/rand"
 	"os"
 	"runtime"
+	"runtime/debug"
 	"runtime/pprof"
 	"sort"
 	"strings"
@@ -140,11 +141,11 @@ type operand struct {
 
 func checkRun(c *Case, rng *rand.Rand, maxPairs, maxTriples int) (fails []*failure, st runStats) {
 	t := typeByName(c.Type)
-	x := &evalCtx{t: t, env: newEnv(c)}
+	x := &evalCtx{t: t, env: newEnv(c), mergeClass: clsProduct}
 	ls := &lawSink{byLaw: map[string]map[string]*failure{}, evals: map[string]int{}}
 	st.lawEvals = ls.evals
 	collect := func() []*failure {
-		st.wire, st.fast, st.noFast = x.wireCount, x.fastCount-x.fastCount/16, x.noFast
+		st.wire, st.fast, st.noFast = x.wireCount, x.fastCount, x.noFast
 		laws := make([]string, 0, len(ls.byLaw))
 		for l := range ls.byLaw {
 			laws = append(laws, l)
@@ -465,7 +466,7 @@ func replay(r *common.Run) {
 		fmt.Println("replay file not understood:", err)
 		os.Exit(3)
 	}
-	o := evaluate(f.Witness.Case, f.Witness.Instance)
+	o := evaluate(f.Witness.Case, f.Witness.Instance, true)
 	for _, l := range f.Witness.Case.Pretty() {
 		fmt.Println("   ", l)
 	}
@@ -482,6 +483,7 @@ var stopProf = func() {}
 
 func main() {
 	r := common.Start("C12", "exploration")
+	debug.SetGCPercent(400)
 	if pf := os.Getenv("C12_PROF"); pf != "" {
 		f, _ := os.Create(pf)
 		pprof.StartCPUProfile(f)
@@ -496,9 +498,9 @@ func main() {
 	if only := os.Getenv("C12_TYPES"); only != "" {
 		types = strings.Split(only, ",")
 	}
-	runsPerType := r.Pick(1500, 40000)
-	maxPairs := r.Pick(150, 250)
-	maxTriples := r.Pick(150, 300)
+	runsPerType := r.Pick(900, 10000)
+	maxPairs := r.Pick(150, 200)
+	maxTriples := r.Pick(150, 250)
 	workers := r.Pick(8, 16)
 	if n := runtime.NumCPU(); workers > n {
 		workers = n
@@ -555,7 +557,7 @@ func main() {
 		ag.mu.Unlock()
 
 		for _, f := range fails {
-			o := evaluate(c, f.in)
+			o := evaluate(c, f.in, false)
 			ag.mu.Lock()
 			ag.failures[fmt.Sprintf("%s:%s/%s", typ, f.in.Law, f.in.Level)]++
 			ag.mu.Unlock()
@@ -581,6 +583,9 @@ func main() {
 			fc, fi, fo := c, f.in, o
 			w := (*witness)(nil)
 			if doShrink {
+				if o2 := evaluate(c, f.in, true); sameFailure(o, o2) {
+					o = o2
+				}
 				var used int
 				fc, fi, fo, used = shrink(c, f.in, o, shrinkBudget)
 				w = mkWitness(fc, fi, fo)
@@ -650,7 +655,7 @@ func main() {
 			"executed on the real type with all law, convergence and reference-read oracles; non-trivial = at least two replicas issued updates and at least one merge in the history joined " +
 			"two states neither of which had seen all updates of the other; distinct by hash of the generated case",
 		Samples: samples.S,
-		Floor:   r.Pick(300, 3000),
+		Floor:   r.Pick(200, 2000),
 		Extra:   extra,
 	}, []string{
 		"state equality is equality of the type's own wire form (GobEncode decoded into the exported structs, sorted); timestamps compare by wall-clock nanoseconds",
